@@ -4,9 +4,13 @@
    names are the names of the hook points (`crate::verif::point`) at those places.
 
    Threads:  the CALLER owns the pool and walks a lifecycle script
-                 [start  execute*  [stop]]  drop
+                 (start  execute*  [stop])*  drop        with at most G starts
              chosen nondeterministically (every script in which execute follows start and
-             precedes stop; DESIGN 5a);
+             precedes stop; DESIGN 5a).  Each start() creates a new GENERATION g: a new task
+             channel, a new handle table, n new workers with the ids 0..n-1 again and a new
+             recovery thread; the previous generation lives on (its recovery thread was only
+             detached, its workers drain their queue and leave when start() replaces - i.e.
+             drops - the old Sender).  Everything a start creates is indexed by g below;
              WORKERS 0..N-1 run `Thread::new`'s closure: loop { lock rx; recv; unlock; run };
              the RECOVERY thread runs `RecoveryThread::new`'s closure: for id in &recovery_rx
              { lock threads; join old; respawn; unlock }.  It owns a clone of the recovery
@@ -40,6 +44,11 @@
    Named deviations (Dev):
      DropJoinsRecovery    - the code as it was before the repair: Drop *joins* the recovery
                             thread when stop() was not called; that thread never ends.
+     RestartSharesHandles - start() refills the existing handle table (`*threads.lock() = new`)
+                            instead of installing a fresh Arc, so the recovery threads of all
+                            generations share one table and one mutex: an old recovery thread
+                            takes a NEW worker's handle and joins that live thread while
+                            holding the table.
    Plausible bugs used only to show the properties are not vacuous (sensitivity configs):
      RunUnderLock         - the receiver guard lives until the task has run (a panic then poisons it)
      ContinueOnDisconnect - a worker `continue`s instead of `break`ing when recv fails
@@ -52,49 +61,56 @@ EXTENDS Naturals, Sequences, FiniteSets
 
 CONSTANTS N,          \* worker ids are 0..N-1 (Pool_Start(n) may start fewer: trace spec)
           MaxTasks,
+          G,          \* at most G calls of start (generations 1..G)
           Dev
 
-DevNames == {"DropJoinsRecovery", "RunUnderLock", "ContinueOnDisconnect", "NoRespawn",
-             "StopJoinsWorkers", "RequeueOnPanic", "ShutdownPerStop2"}
+DevNames == {"DropJoinsRecovery", "RestartSharesHandles", "RunUnderLock", "ContinueOnDisconnect",
+             "NoRespawn", "StopJoinsWorkers", "RequeueOnPanic", "ShutdownPerStop2"}
 ASSUME Dev \subseteq DevNames
 
 Workers  == 0 .. N - 1
 Tasks    == 1 .. MaxTasks
+Gens     == 1 .. G
 SHUTDOWN == 0
 NOBODY   == 0 - 1
 
 VARIABLES
   cpc,         \* caller: new | started | stopjoin | stopped | dropping | dropped | done
   nsub,        \* tasks 1..nsub have been passed to execute
+  cur,         \* number of start() calls so far = current generation (0: never started)
   recAttached, \* pool.recovery_thread is Some(handle)
-  q,           \* task channel, FIFO of task ids and SHUTDOWN
-  txAlive,     \* the pool's Sender<Message> exists (after start, before the pool's fields are dropped)
-  rxLock,      \* worker holding the Mutex<Receiver>, or NOBODY
-  poisoned,    \* that mutex is poisoned
-  wpc,         \* worker: absent | idle | recv | got | run | unwinding | dead | exited
-  wtask,       \* task held by the worker (0 = none)
-  inc,         \* incarnation of worker id w (number of respawns)
-  recq,        \* recovery channel, FIFO of worker ids
-  rpc,         \* recovery thread: absent | recv | lock | join | respawn  (join/respawn: holds `threads`)
-  rw,          \* id being recovered, or NOBODY
-  handles,     \* threads[w].os_thread is Some
+  q,           \* q[g]: task channel of generation g, FIFO of task ids and SHUTDOWN
+  txAlive,     \* txAlive[g]: the pool's Sender<Message> of generation g exists
+  rxLock,      \* rxLock[g]: worker holding the Mutex<Receiver> of generation g, or NOBODY
+  poisoned,    \* poisoned[g]: that mutex is poisoned
+  wpc,         \* wpc[g][w]: absent | idle | recv | got | run | unwinding | dead | exited
+  wtask,       \* wtask[g][w]: task held by the worker (0 = none)
+  inc,         \* inc[g][w]: incarnation of worker id w of generation g (number of respawns)
+  recq,        \* recq[g]: recovery channel of generation g, FIFO of worker ids
+  rpc,         \* rpc[g]: recovery thread: absent | recv | lock | join | respawn (join/respawn: holds the table)
+  rw,          \* rw[g]: id being recovered, or NOBODY
+  handles,     \* handles[tb][w]: 0 = threads[w].os_thread is None, else the generation of the thread it refers to
   pan,         \* tasks whose body panics (constant during a behaviour)
   ran,         \* ran[t]  = number of times the body of t was entered
   done         \* done[t] = number of times the body of t returned
 
-vars == <<cpc, nsub, recAttached, q, txAlive, rxLock, poisoned, wpc, wtask, inc, recq, rpc, rw,
+vars == <<cpc, nsub, cur, recAttached, q, txAlive, rxLock, poisoned, wpc, wtask, inc, recq, rpc, rw,
           handles, pan, ran, done>>
-callerVars == <<cpc, nsub, recAttached>>
-workerVars == <<rxLock, poisoned, wpc, wtask, ran, done>>
-recVars    == <<rpc, rw, inc>>
+
+\* the handle table (Arc<Mutex<Vec<Thread>>>) used by generation g
+Tbl(g) == IF "RestartSharesHandles" \in Dev THEN 1 ELSE g
+\* its mutex is held exactly by a recovery thread between Rec_Recv and Rec_Respawn
+TableFree(tb) == \A g \in Gens : Tbl(g) = tb => rpc[g] \notin {"join", "respawn"}
 
 InitWith(p) ==
-  /\ cpc = "new" /\ nsub = 0 /\ recAttached = FALSE
-  /\ q = <<>> /\ txAlive = FALSE /\ rxLock = NOBODY /\ poisoned = FALSE
-  /\ wpc = [w \in Workers |-> "absent"] /\ wtask = [w \in Workers |-> 0]
-  /\ inc = [w \in Workers |-> 0]
-  /\ recq = <<>> /\ rpc = "absent" /\ rw = NOBODY
-  /\ handles = [w \in Workers |-> FALSE]
+  /\ cpc = "new" /\ nsub = 0 /\ cur = 0 /\ recAttached = FALSE
+  /\ q = [g \in Gens |-> <<>>] /\ txAlive = [g \in Gens |-> FALSE]
+  /\ rxLock = [g \in Gens |-> NOBODY] /\ poisoned = [g \in Gens |-> FALSE]
+  /\ wpc = [g \in Gens |-> [w \in Workers |-> "absent"]]
+  /\ wtask = [g \in Gens |-> [w \in Workers |-> 0]]
+  /\ inc = [g \in Gens |-> [w \in Workers |-> 0]]
+  /\ recq = [g \in Gens |-> <<>>] /\ rpc = [g \in Gens |-> "absent"] /\ rw = [g \in Gens |-> NOBODY]
+  /\ handles = [g \in Gens |-> [w \in Workers |-> 0]]
   /\ pan = p
   /\ ran = [t \in Tasks |-> 0] /\ done = [t \in Tasks |-> 0]
 
@@ -103,44 +119,50 @@ Init == \E p \in SUBSET Tasks : InitWith(p)
 (***************************************************************************)
 (* Caller                                                                  *)
 (***************************************************************************)
-\* ThreadPool::start: new channels, n workers, the recovery thread.
+\* ThreadPool::start: new channels, n workers, a new handle table, the recovery thread; the old
+\* Sender (if any) is dropped by the assignment `self.tx = tx`, the old recovery JoinHandle (if
+\* stop was not called) by `self.recovery_thread = Some(..)`.
 Pool_Start(n) ==
-  /\ cpc = "new"
-  /\ cpc' = "started" /\ recAttached' = TRUE /\ txAlive' = TRUE
-  /\ wpc' = [w \in Workers |-> IF w < n THEN "idle" ELSE "absent"]
-  /\ handles' = [w \in Workers |-> w < n]
-  /\ rpc' = "recv"
+  /\ cpc \in {"new", "started", "stopped"} /\ cur < G
+  /\ LET g == cur + 1 IN
+     /\ (cur >= 1 /\ "RestartSharesHandles" \in Dev) => TableFree(1)     \* `self.threads.lock()`
+     /\ cur' = g /\ cpc' = "started" /\ recAttached' = TRUE
+     /\ txAlive' = [h \in Gens |-> IF h = g THEN TRUE ELSE IF h = cur THEN FALSE ELSE txAlive[h]]
+     /\ wpc' = [wpc EXCEPT ![g] = [w \in Workers |-> IF w < n THEN "idle" ELSE "absent"]]
+     /\ handles' = [handles EXCEPT ![Tbl(g)] = [w \in Workers |-> IF w < n THEN g ELSE 0]]
+     /\ rpc' = [rpc EXCEPT ![g] = "recv"]
   /\ UNCHANGED <<nsub, q, rxLock, poisoned, wtask, inc, recq, rw, pan, ran, done>>
 
 \* ThreadPool::execute: tx.send(Function(task)) - never fails, never blocks.
 Pool_Execute(t) ==
   /\ cpc = "started" /\ t = nsub + 1 /\ t \in Tasks
-  /\ nsub' = t /\ q' = Append(q, t)
-  /\ UNCHANGED <<cpc, recAttached, txAlive, rxLock, poisoned, wpc, wtask, inc, recq, rpc, rw,
+  /\ nsub' = t /\ q' = [q EXCEPT ![cur] = Append(@, t)]
+  /\ UNCHANGED <<cpc, cur, recAttached, txAlive, rxLock, poisoned, wpc, wtask, inc, recq, rpc, rw,
                  handles, pan, ran, done>>
 
 \* ThreadPool::stop: recovery_thread = None (detach), send ONE Shutdown.
 Pool_Stop ==
   /\ cpc = "started"
   /\ recAttached' = FALSE
-  /\ q' = IF "ShutdownPerStop2" \in Dev THEN q \o <<SHUTDOWN, SHUTDOWN>> ELSE Append(q, SHUTDOWN)
+  /\ q' = [q EXCEPT ![cur] = IF "ShutdownPerStop2" \in Dev THEN @ \o <<SHUTDOWN, SHUTDOWN>>
+                                                             ELSE Append(@, SHUTDOWN)]
   /\ cpc' = IF "StopJoinsWorkers" \in Dev THEN "stopjoin" ELSE "stopped"
-  /\ UNCHANGED <<nsub, txAlive, rxLock, poisoned, wpc, wtask, inc, recq, rpc, rw, handles, pan,
+  /\ UNCHANGED <<nsub, cur, txAlive, rxLock, poisoned, wpc, wtask, inc, recq, rpc, rw, handles, pan,
                  ran, done>>
 
 \* only under StopJoinsWorkers: the joins return when every worker thread has ended
 Pool_StopJoined ==
   /\ cpc = "stopjoin"
-  /\ \A w \in Workers : wpc[w] \in {"absent", "exited", "dead"}
+  /\ \A w \in Workers : wpc[cur][w] \in {"absent", "exited", "dead"}
   /\ cpc' = "stopped"
-  /\ UNCHANGED <<nsub, recAttached, q, txAlive, rxLock, poisoned, wpc, wtask, inc, recq, rpc, rw,
+  /\ UNCHANGED <<nsub, cur, recAttached, q, txAlive, rxLock, poisoned, wpc, wtask, inc, recq, rpc, rw,
                  handles, pan, ran, done>>
 
 \* <ThreadPool as Drop>::drop is entered (also for a pool that was never started).
 Pool_DropBegin ==
   /\ cpc \in {"new", "started", "stopped"}
   /\ cpc' = "dropping"
-  /\ UNCHANGED <<nsub, recAttached, q, txAlive, rxLock, poisoned, wpc, wtask, inc, recq, rpc, rw,
+  /\ UNCHANGED <<nsub, cur, recAttached, q, txAlive, rxLock, poisoned, wpc, wtask, inc, recq, rpc, rw,
                  handles, pan, ran, done>>
 
 \* The recovery thread never ends, so joining it never returns.
@@ -152,143 +174,149 @@ DropPassesRecovery ==
 Pool_DropHandles ==
   /\ cpc = "dropping"
   /\ DropPassesRecovery
-  /\ rpc \notin {"join", "respawn"}          \* `threads` is free
-  /\ handles' = [w \in Workers |-> FALSE]
+  /\ IF cur = 0 THEN UNCHANGED handles
+     ELSE /\ TableFree(Tbl(cur))
+          /\ handles' = [handles EXCEPT ![Tbl(cur)] = [w \in Workers |-> 0]]
   /\ recAttached' = FALSE
   /\ cpc' = "dropped"
-  /\ UNCHANGED <<nsub, q, txAlive, rxLock, poisoned, wpc, wtask, inc, recq, rpc, rw, pan, ran, done>>
+  /\ UNCHANGED <<nsub, cur, q, txAlive, rxLock, poisoned, wpc, wtask, inc, recq, rpc, rw, pan, ran, done>>
 
-\* the fields are dropped: the pool's Sender - the only one - goes away.
+\* the fields are dropped: the pool's Sender - the only one of the current generation - goes away.
 Pool_DropEnd ==
   /\ cpc = "dropped"
-  /\ txAlive' = FALSE /\ cpc' = "done"
-  /\ UNCHANGED <<nsub, recAttached, q, rxLock, poisoned, wpc, wtask, inc, recq, rpc, rw, handles,
+  /\ txAlive' = [h \in Gens |-> IF h = cur THEN FALSE ELSE txAlive[h]] /\ cpc' = "done"
+  /\ UNCHANGED <<nsub, cur, recAttached, q, rxLock, poisoned, wpc, wtask, inc, recq, rpc, rw, handles,
                  pan, ran, done>>
 
 Caller == \/ Pool_Start(N) \/ (\E t \in Tasks : Pool_Execute(t)) \/ Pool_Stop \/ Pool_StopJoined
           \/ Pool_DropBegin \/ Pool_DropHandles \/ Pool_DropEnd
 
 (***************************************************************************)
-(* Workers                                                                 *)
+(* Workers (generation g, id w)                                            *)
 (***************************************************************************)
+SetW(f, g, w, v) == [f EXCEPT ![g] = [@ EXCEPT ![w] = v]]
+
 \* rx.lock(): Ok(guard) -> go on to recv; Err(poisoned) -> break.
-Worker_Lock(w) ==
-  /\ wpc[w] = "idle" /\ rxLock = NOBODY
-  /\ IF poisoned
-       THEN /\ wpc' = [wpc EXCEPT ![w] = "exited"] /\ UNCHANGED rxLock
-       ELSE /\ wpc' = [wpc EXCEPT ![w] = "recv"] /\ rxLock' = w
-  /\ UNCHANGED <<cpc, nsub, recAttached, q, txAlive, poisoned, wtask, inc, recq, rpc, rw, handles,
+Worker_Lock(g, w) ==
+  /\ wpc[g][w] = "idle" /\ rxLock[g] = NOBODY
+  /\ IF poisoned[g]
+       THEN /\ wpc' = SetW(wpc, g, w, "exited") /\ UNCHANGED rxLock
+       ELSE /\ wpc' = SetW(wpc, g, w, "recv") /\ rxLock' = [rxLock EXCEPT ![g] = w]
+  /\ UNCHANGED <<cpc, nsub, cur, recAttached, q, txAlive, poisoned, wtask, inc, recq, rpc, rw, handles,
                  pan, ran, done>>
 
 \* guard.recv() returns a message; the guard is dropped.
-Worker_RecvMsg(w) ==
-  /\ wpc[w] = "recv" /\ q # <<>>
-  /\ q' = Tail(q)
-  /\ IF Head(q) = SHUTDOWN
-       THEN /\ wpc' = [wpc EXCEPT ![w] = "exited"] /\ rxLock' = NOBODY /\ UNCHANGED wtask
-       ELSE /\ wpc' = [wpc EXCEPT ![w] = "got"]
-            /\ wtask' = [wtask EXCEPT ![w] = Head(q)]
-            /\ rxLock' = IF "RunUnderLock" \in Dev THEN w ELSE NOBODY
-  /\ UNCHANGED <<cpc, nsub, recAttached, txAlive, poisoned, inc, recq, rpc, rw, handles, pan, ran, done>>
+Worker_RecvMsg(g, w) ==
+  /\ wpc[g][w] = "recv" /\ q[g] # <<>>
+  /\ q' = [q EXCEPT ![g] = Tail(@)]
+  /\ IF Head(q[g]) = SHUTDOWN
+       THEN /\ wpc' = SetW(wpc, g, w, "exited") /\ rxLock' = [rxLock EXCEPT ![g] = NOBODY]
+            /\ UNCHANGED wtask
+       ELSE /\ wpc' = SetW(wpc, g, w, "got")
+            /\ wtask' = SetW(wtask, g, w, Head(q[g]))
+            /\ rxLock' = [rxLock EXCEPT ![g] = IF "RunUnderLock" \in Dev THEN w ELSE NOBODY]
+  /\ UNCHANGED <<cpc, nsub, cur, recAttached, txAlive, poisoned, inc, recq, rpc, rw, handles, pan, ran, done>>
 
 \* guard.recv() fails: every Sender is gone and the queue is empty.
-Worker_RecvDisc(w) ==
-  /\ wpc[w] = "recv" /\ q = <<>> /\ ~txAlive
-  /\ wpc' = [wpc EXCEPT ![w] = IF "ContinueOnDisconnect" \in Dev THEN "idle" ELSE "exited"]
-  /\ rxLock' = NOBODY
-  /\ UNCHANGED <<cpc, nsub, recAttached, q, txAlive, poisoned, wtask, inc, recq, rpc, rw, handles,
+Worker_RecvDisc(g, w) ==
+  /\ wpc[g][w] = "recv" /\ q[g] = <<>> /\ ~txAlive[g]
+  /\ wpc' = SetW(wpc, g, w, IF "ContinueOnDisconnect" \in Dev THEN "idle" ELSE "exited")
+  /\ rxLock' = [rxLock EXCEPT ![g] = NOBODY]
+  /\ UNCHANGED <<cpc, nsub, cur, recAttached, q, txAlive, poisoned, wtask, inc, recq, rpc, rw, handles,
                  pan, ran, done>>
 
-Worker_Recv(w) == Worker_RecvMsg(w) \/ Worker_RecvDisc(w)
+Worker_Recv(g, w) == Worker_RecvMsg(g, w) \/ Worker_RecvDisc(g, w)
 
 \* (f)() is entered
-Worker_Run(w) ==
-  /\ wpc[w] = "got"
-  /\ wpc' = [wpc EXCEPT ![w] = "run"]
-  /\ ran' = [ran EXCEPT ![wtask[w]] = @ + 1]
-  /\ UNCHANGED <<cpc, nsub, recAttached, q, txAlive, rxLock, poisoned, wtask, inc, recq, rpc, rw,
+Worker_Run(g, w) ==
+  /\ wpc[g][w] = "got"
+  /\ wpc' = SetW(wpc, g, w, "run")
+  /\ ran' = [ran EXCEPT ![wtask[g][w]] = @ + 1]
+  /\ UNCHANGED <<cpc, nsub, cur, recAttached, q, txAlive, rxLock, poisoned, wtask, inc, recq, rpc, rw,
                  handles, pan, done>>
 
 \* (f)() returns; back to the top of the loop
-Worker_Finish(w) ==
-  /\ wpc[w] = "run" /\ wtask[w] \notin pan
-  /\ wpc' = [wpc EXCEPT ![w] = "idle"]
-  /\ done' = [done EXCEPT ![wtask[w]] = @ + 1]
-  /\ wtask' = [wtask EXCEPT ![w] = 0]
-  /\ rxLock' = IF rxLock = w THEN NOBODY ELSE rxLock       \* RunUnderLock only
-  /\ UNCHANGED <<cpc, nsub, recAttached, q, txAlive, poisoned, inc, recq, rpc, rw, handles, pan, ran>>
+Worker_Finish(g, w) ==
+  /\ wpc[g][w] = "run" /\ wtask[g][w] \notin pan
+  /\ wpc' = SetW(wpc, g, w, "idle")
+  /\ done' = [done EXCEPT ![wtask[g][w]] = @ + 1]
+  /\ wtask' = SetW(wtask, g, w, 0)
+  /\ rxLock' = [rxLock EXCEPT ![g] = IF @ = w THEN NOBODY ELSE @]      \* RunUnderLock only
+  /\ UNCHANGED <<cpc, nsub, cur, recAttached, q, txAlive, poisoned, inc, recq, rpc, rw, handles, pan, ran>>
 
-\* (f)() panics; PanicMarker::drop sends the worker id to the recovery thread
-Worker_Panic(w) ==
-  /\ wpc[w] = "run" /\ wtask[w] \in pan
-  /\ wpc' = [wpc EXCEPT ![w] = "unwinding"]
-  /\ recq' = Append(recq, w)
-  /\ wtask' = [wtask EXCEPT ![w] = 0]
-  /\ rxLock' = IF rxLock = w THEN NOBODY ELSE rxLock       \* RunUnderLock only: guard dropped
-  /\ poisoned' = (poisoned \/ rxLock = w)                  \*   while panicking => poisoned
-  /\ q' = IF "RequeueOnPanic" \in Dev THEN Append(q, wtask[w]) ELSE q
-  /\ UNCHANGED <<cpc, nsub, recAttached, txAlive, inc, rpc, rw, handles, pan, ran, done>>
+\* (f)() panics; PanicMarker::drop sends the worker id to the recovery thread of its generation
+Worker_Panic(g, w) ==
+  /\ wpc[g][w] = "run" /\ wtask[g][w] \in pan
+  /\ wpc' = SetW(wpc, g, w, "unwinding")
+  /\ recq' = [recq EXCEPT ![g] = Append(@, w)]
+  /\ wtask' = SetW(wtask, g, w, 0)
+  /\ rxLock' = [rxLock EXCEPT ![g] = IF @ = w THEN NOBODY ELSE @]      \* RunUnderLock only: guard dropped
+  /\ poisoned' = [poisoned EXCEPT ![g] = (@ \/ rxLock[g] = w)]         \*   while panicking => poisoned
+  /\ q' = IF "RequeueOnPanic" \in Dev THEN [q EXCEPT ![g] = Append(@, wtask[g][w])] ELSE q
+  /\ UNCHANGED <<cpc, nsub, cur, recAttached, txAlive, inc, rpc, rw, handles, pan, ran, done>>
 
 \* the OS thread of a panicked worker ends (the only step without a hook point)
-Worker_Die(w) ==
-  /\ wpc[w] = "unwinding"
-  /\ wpc' = [wpc EXCEPT ![w] = "dead"]
-  /\ UNCHANGED <<cpc, nsub, recAttached, q, txAlive, rxLock, poisoned, wtask, inc, recq, rpc, rw,
+Worker_Die(g, w) ==
+  /\ wpc[g][w] = "unwinding"
+  /\ wpc' = SetW(wpc, g, w, "dead")
+  /\ UNCHANGED <<cpc, nsub, cur, recAttached, q, txAlive, rxLock, poisoned, wtask, inc, recq, rpc, rw,
                  handles, pan, ran, done>>
 
-Worker(w) == \/ Worker_Lock(w) \/ Worker_Recv(w) \/ Worker_Run(w) \/ Worker_Finish(w)
-             \/ Worker_Panic(w) \/ Worker_Die(w)
+Worker(g, w) == \/ Worker_Lock(g, w) \/ Worker_Recv(g, w) \/ Worker_Run(g, w) \/ Worker_Finish(g, w)
+                \/ Worker_Panic(g, w) \/ Worker_Die(g, w)
 
 (***************************************************************************)
-(* Recovery thread                                                         *)
+(* Recovery thread of generation g                                         *)
 (***************************************************************************)
 \* `for id in &rx` yields an id (the recovery channel is popped)
-Rec_Wake ==
-  /\ rpc = "recv" /\ recq # <<>>
-  /\ rw' = Head(recq) /\ recq' = Tail(recq) /\ rpc' = "lock"
-  /\ UNCHANGED <<cpc, nsub, recAttached, q, txAlive, rxLock, poisoned, wpc, wtask, inc, handles,
+Rec_Wake(g) ==
+  /\ rpc[g] = "recv" /\ recq[g] # <<>>
+  /\ rw' = [rw EXCEPT ![g] = Head(recq[g])] /\ recq' = [recq EXCEPT ![g] = Tail(@)]
+  /\ rpc' = [rpc EXCEPT ![g] = "lock"]
+  /\ UNCHANGED <<cpc, nsub, cur, recAttached, q, txAlive, rxLock, poisoned, wpc, wtask, inc, handles,
                  pan, ran, done>>
 
-\* threads.lock() returns (the mutex is free unless the caller is inside Pool_DropHandles, which
-\* is a single step, so this is always possible); the guard lives until Rec_Respawn
-Rec_Recv ==
-  /\ rpc = "lock"
-  /\ rpc' = "join"
-  /\ UNCHANGED <<cpc, nsub, recAttached, q, txAlive, rxLock, poisoned, wpc, wtask, inc, recq, rw,
+\* threads.lock() returns (the caller's critical sections are single steps, so with one table per
+\* generation this is always possible); the guard lives until Rec_Respawn
+Rec_Recv(g) ==
+  /\ rpc[g] = "lock" /\ TableFree(Tbl(g))
+  /\ rpc' = [rpc EXCEPT ![g] = "join"]
+  /\ UNCHANGED <<cpc, nsub, cur, recAttached, q, txAlive, rxLock, poisoned, wpc, wtask, inc, recq, rw,
                  handles, pan, ran, done>>
 
-\* threads[id].os_thread.take() and, if it was there, join() - returns when that thread has ended.
-\* When Drop has already taken the handle the old thread is not joined.
-Rec_Join ==
-  /\ rpc = "join"
-  /\ IF handles[rw]
-       THEN /\ wpc[rw] = "dead"
-            /\ handles' = [handles EXCEPT ![rw] = FALSE]
+\* threads[id].os_thread.take() and, if it was there, join() - returns when the thread the handle refers
+\* to has ended.  When Drop has already taken the handle the old thread is not joined.
+Rec_Join(g) ==
+  /\ rpc[g] = "join"
+  /\ LET tb == Tbl(g)  h == handles[tb][rw[g]] IN
+     IF h # 0
+       THEN /\ wpc[h][rw[g]] \in {"dead", "exited"}
+            /\ handles' = [handles EXCEPT ![tb] = [@ EXCEPT ![rw[g]] = 0]]
        ELSE UNCHANGED handles
-  /\ rpc' = "respawn"
-  /\ UNCHANGED <<cpc, nsub, recAttached, q, txAlive, rxLock, poisoned, wpc, wtask, inc, recq, rw,
+  /\ rpc' = [rpc EXCEPT ![g] = "respawn"]
+  /\ UNCHANGED <<cpc, nsub, cur, recAttached, q, txAlive, rxLock, poisoned, wpc, wtask, inc, recq, rw,
                  pan, ran, done>>
 
-\* Thread::new(id, ..) stored in threads[id]; the guard is dropped at the end of the loop body.
-\* (If the old thread was not joined it may still be unwinding; it takes no further part - it
-\*  emits nothing and nobody waits for it - so its state is simply overwritten.)
-Rec_Respawn ==
-  /\ rpc = "respawn"
-  /\ wpc' = IF "NoRespawn" \in Dev THEN wpc ELSE [wpc EXCEPT ![rw] = "idle"]
-  /\ inc' = [inc EXCEPT ![rw] = @ + 1]
-  /\ handles' = [handles EXCEPT ![rw] = TRUE]
-  /\ rpc' = "recv" /\ rw' = NOBODY
-  /\ UNCHANGED <<cpc, nsub, recAttached, q, txAlive, rxLock, poisoned, wtask, recq, pan, ran, done>>
+\* Thread::new(id, ..) on the task channel of generation g, stored in threads[id]; the guard is dropped at
+\* the end of the loop body.  (If the old thread was not joined it may still be unwinding; it takes no
+\* further part - it emits nothing and nobody waits for it - so its state is simply overwritten.)
+Rec_Respawn(g) ==
+  /\ rpc[g] = "respawn"
+  /\ wpc' = IF "NoRespawn" \in Dev THEN wpc ELSE SetW(wpc, g, rw[g], "idle")
+  /\ inc' = SetW(inc, g, rw[g], inc[g][rw[g]] + 1)
+  /\ handles' = [handles EXCEPT ![Tbl(g)] = [@ EXCEPT ![rw[g]] = g]]
+  /\ rpc' = [rpc EXCEPT ![g] = "recv"] /\ rw' = [rw EXCEPT ![g] = NOBODY]
+  /\ UNCHANGED <<cpc, nsub, cur, recAttached, q, txAlive, rxLock, poisoned, wtask, recq, pan, ran, done>>
 
-Recovery == Rec_Wake \/ Rec_Recv \/ Rec_Join \/ Rec_Respawn
+Recovery(g) == Rec_Wake(g) \/ Rec_Recv(g) \/ Rec_Join(g) \/ Rec_Respawn(g)
 
 (***************************************************************************)
-Next == Caller \/ (\E w \in Workers : Worker(w)) \/ Recovery
+Next == Caller \/ (\E g \in Gens : (\E w \in Workers : Worker(g, w)) \/ Recovery(g))
 
 Spec == /\ Init /\ [][Next]_vars
         /\ WF_vars(Caller)
-        /\ \A w \in Workers : WF_vars(Worker(w))
-        /\ WF_vars(Recovery)
+        /\ \A g \in Gens : \A w \in Workers : WF_vars(Worker(g, w))
+        /\ \A g \in Gens : WF_vars(Recovery(g))
 
 (***************************************************************************)
 (* Properties                                                              *)
@@ -296,71 +324,78 @@ Spec == /\ Init /\ [][Next]_vars
 WStates == {"absent", "idle", "recv", "got", "run", "unwinding", "dead", "exited"}
 TypeOK ==
   /\ cpc \in {"new", "started", "stopjoin", "stopped", "dropping", "dropped", "done"}
-  /\ nsub \in 0 .. MaxTasks /\ recAttached \in BOOLEAN /\ txAlive \in BOOLEAN /\ poisoned \in BOOLEAN
-  /\ q \in Seq(Tasks \cup {SHUTDOWN})
-  /\ rxLock \in Workers \cup {NOBODY}
-  /\ wpc \in [Workers -> WStates] /\ wtask \in [Workers -> Tasks \cup {0}]
-  /\ inc \in [Workers -> 0 .. MaxTasks]
-  /\ recq \in Seq(Workers) /\ rpc \in {"absent", "recv", "lock", "join", "respawn"}
-  /\ rw \in Workers \cup {NOBODY}
-  /\ handles \in [Workers -> BOOLEAN] /\ pan \subseteq Tasks
+  /\ nsub \in 0 .. MaxTasks /\ cur \in 0 .. G /\ recAttached \in BOOLEAN
+  /\ txAlive \in [Gens -> BOOLEAN] /\ poisoned \in [Gens -> BOOLEAN]
+  /\ \A g \in Gens : q[g] \in Seq(Tasks \cup {SHUTDOWN}) /\ recq[g] \in Seq(Workers)
+  /\ rxLock \in [Gens -> Workers \cup {NOBODY}]
+  /\ wpc \in [Gens -> [Workers -> WStates]] /\ wtask \in [Gens -> [Workers -> Tasks \cup {0}]]
+  /\ inc \in [Gens -> [Workers -> 0 .. MaxTasks]]
+  /\ rpc \in [Gens -> {"absent", "recv", "lock", "join", "respawn"}]
+  /\ rw \in [Gens -> Workers \cup {NOBODY}]
+  /\ handles \in [Gens -> [Workers -> 0 .. G]] /\ pan \subseteq Tasks
   /\ ran \in [Tasks -> Nat] /\ done \in [Tasks -> Nat]
 
-Running == {w \in Workers : wpc[w] = "run"}
-Usable  == {w \in Workers : wpc[w] \in {"idle", "recv", "got", "run"}}
-Gone    == {w \in Workers : wpc[w] = "exited"}
-Started == {w \in Workers : wpc[w] # "absent"}
+Running(g) == {w \in Workers : wpc[g][w] = "run"}
+Usable(g)  == {w \in Workers : wpc[g][w] \in {"idle", "recv", "got", "run"}}
+Gone(g)    == {w \in Workers : wpc[g][w] = "exited"}
+Started(g) == {w \in Workers : wpc[g][w] # "absent"}
+GW         == Gens \X Workers
 
 \* "executed exactly once", safety half
 AtMostOnce == \A t \in Tasks : ran[t] <= 1 /\ done[t] <= ran[t]
 OnlySubmittedRun == \A t \in Tasks : ran[t] > 0 => t <= nsub
 
 \* the receiver mutex is held exactly while a worker sits in recv - never while a task runs
-LockNotHeldWhileRunning == \A w \in Workers : wpc[w] \in {"got", "run"} => rxLock # w
-LockConsistent == \A w \in Workers : (rxLock = w) <=> (wpc[w] = "recv")
-NeverPoisoned == ~poisoned
+LockNotHeldWhileRunning == \A g \in Gens, w \in Workers : wpc[g][w] \in {"got", "run"} => rxLock[g] # w
+LockConsistent == \A g \in Gens, w \in Workers : (rxLock[g] = w) <=> (wpc[g][w] = "recv")
+NeverPoisoned == \A g \in Gens : ~poisoned[g]
 
 \* a worker holds a task iff it is between recv and the end of the body; tasks held, queued and
-\* finished never overlap (no loss, no duplication)
-Held == {wtask[w] : w \in {x \in Workers : wpc[x] \in {"got", "run"}}}
-InQueue == {q[i] : i \in 1 .. Len(q)} \ {SHUTDOWN}
+\* finished never overlap (no loss, no duplication), across all generations
+Held == {wtask[p[1]][p[2]] : p \in {x \in GW : wpc[x[1]][x[2]] \in {"got", "run"}}}
+InQueue == UNION {{q[g][i] : i \in 1 .. Len(q[g])} : g \in Gens} \ {SHUTDOWN}
 NoLossNoDup ==
   LET inq  == InQueue
       held == Held
-      running == {wtask[w] : w \in {x \in Workers : wpc[x] = "run"}}
+      running == {wtask[p[1]][p[2]] : p \in {x \in GW : wpc[x[1]][x[2]] = "run"}}
   IN
-  /\ \A w \in Workers : (wtask[w] # 0) <=> (wpc[w] \in {"got", "run"})
-  /\ \A w1, w2 \in Workers : (w1 # w2 /\ wtask[w1] # 0) => wtask[w1] # wtask[w2]
-  /\ \A i \in 1 .. Len(q) - 1 : q[i] # SHUTDOWN /\ (q[i + 1] # SHUTDOWN => q[i] < q[i + 1])
+  /\ \A p \in GW : (wtask[p[1]][p[2]] # 0) <=> (wpc[p[1]][p[2]] \in {"got", "run"})
+  /\ \A p1, p2 \in GW : (p1 # p2 /\ wtask[p1[1]][p1[2]] # 0) => wtask[p1[1]][p1[2]] # wtask[p2[1]][p2[2]]
+  /\ \A g \in Gens : \A i \in 1 .. Len(q[g]) - 1 :
+        q[g][i] # SHUTDOWN /\ (q[g][i + 1] # SHUTDOWN => q[g][i] < q[g][i + 1])
+  /\ \A g1, g2 \in Gens : g1 # g2 =>
+        {q[g1][i] : i \in 1 .. Len(q[g1])} \cap {q[g2][i] : i \in 1 .. Len(q[g2])} \subseteq {SHUTDOWN}
   /\ \A t \in 1 .. nsub :
         \/ t \in inq /\ t \notin held /\ ran[t] = 0
         \/ t \notin inq /\ t \in held /\ ran[t] = (IF t \in running THEN 1 ELSE 0)
         \/ t \notin inq /\ t \notin held /\ ran[t] = 1
 
-\* "a task that panics affects nothing but itself": while the pool is started no worker leaves, and a
-\* worker that died of a panic is on its way to being replaced
+\* "a task that panics affects nothing but itself": while the pool is started no worker of the current
+\* generation leaves, and a worker that died of a panic is on its way to being replaced
 NoPrematureExit ==
-  /\ cpc = "started" => Gone = {}
-  /\ \A w \in Started : wpc[w] \in {"unwinding", "dead"} =>
-        \/ rw = w \/ \E i \in 1 .. Len(recq) : recq[i] = w   \* its recovery is under way
+  /\ (cpc = "started" /\ cur >= 1) => Gone(cur) = {}
+  /\ \A g \in Gens : \A w \in Started(g) : wpc[g][w] \in {"unwinding", "dead"} =>
+        \/ rw[g] = w \/ \E i \in 1 .. Len(recq[g]) : recq[g][i] = w   \* its recovery is under way
 
 \* implementation-level (not demanded by the property): stop sends ONE Shutdown, so until the Sender
-\* is gone exactly the worker that consumed it has left; the others leave at drop
-SingleShutdown == txAlive => Cardinality(Gone) <= 1
+\* is gone exactly the worker that consumed it has left; the others leave when the Sender is dropped
+SingleShutdown == \A g \in Gens : txAlive[g] => Cardinality(Gone(g)) <= 1
 
-\* "the expected event can always arrive": nobody waits for a condition that cannot come true -
-\* checked as liveness below.
+\* a handle in a table refers to a worker of the generation that owns the table
+HandlesOwn == \A g \in Gens, w \in Workers : handles[g][w] \in {0, g}
+
 Quiescent ==
-  /\ cpc = "done" /\ Started \subseteq Gone
-  /\ q = <<>> /\ recq = <<>> /\ rpc \in {"absent", "recv"}
+  /\ cpc = "done"
+  /\ \A g \in Gens : /\ Started(g) \subseteq Gone(g)
+                     /\ q[g] = <<>> /\ recq[g] = <<>> /\ rpc[g] \in {"absent", "recv"}
 
 SubmittedOK(t) == ran[t] = 1 /\ (t \in pan \/ done[t] = 1)
 
 \* liveness (under Spec's weak fairness, no state constraint)
 EventuallyEachOnce == \A t \in Tasks : (nsub >= t) ~> SubmittedOK(t)
 CallerNeverBlocks  == <>(cpc = "done")
-AllWorkersExit     == <>[](Started \subseteq Gone)
-PanicIsolated      == \A w \in Workers : (wpc[w] \in {"unwinding", "dead"}) ~> (wpc[w] = "idle")
+AllWorkersExit     == <>[](\A g \in Gens : Started(g) \subseteq Gone(g))
+PanicIsolated      == \A g \in Gens, w \in Workers : (wpc[g][w] \in {"unwinding", "dead"}) ~> (wpc[g][w] = "idle")
 EventuallyQuiescent == <>[]Quiescent
 AllSubmittedDone   == <>[](\A t \in Tasks : t <= nsub => SubmittedOK(t))
 
@@ -369,5 +404,5 @@ AllSubmittedDone   == <>[](\A t \in Tasks : t <= nsub => SubmittedOK(t))
 LiveAll            == <>[](Quiescent /\ \A t \in Tasks : t <= nsub => SubmittedOK(t))
 
 \* "up to N tasks run at the same time": TLC must VIOLATE this (witness of N running)
-NeverAllRunning == Cardinality(Running) < N
+NeverAllRunning == \A g \in Gens : Cardinality(Running(g)) < N
 =============================================================================
